@@ -245,7 +245,14 @@ def _root_spellings0(cwd, dirs, git):
 
 def gen_case(seed, tier, index=0):
     rng = Rng(seed, "c14")
-    world, dirs = gen_world(rng, tier)
+    if rng.chance(0.25):
+        # a project that is compliant by construction (C01's generator, usually without defects): the 'exit 0' side
+        from checks import c01
+        world = c01.gen_world(rng)[0]
+        real = sorted({posixpath.dirname(f["path"]) for f in world["files"]} - {""})
+        dirs = [""] + [d for d in real if not d.startswith((".", "LICENSES", "build"))]
+    else:
+        world, dirs = gen_world(rng, tier)
     git = bool(world.get("git"))
     # the name of the root directory itself is part of the environment, not of the project's contents
     rn = rng.wpick([(12, "p"), (2, "subprojects"), (1, "LICENSES"), (1, ".reuse"), (1, "a b"), (1, "x.license"), (1, "LICENSE")])
